@@ -35,10 +35,46 @@ def load_known(prop):
     return {f["id"]: f for f in data.get("findings", []) if f.get("property") == prop}
 
 
+class CaseTimeout(BaseException):
+    """raised by the per-case CPU timer inside the implementation run (BaseException: `except Exception` in the code under
+    test must not swallow it)"""
+
+
+CASE_CPU_LIMIT = float(os.environ.get("VERIF_CASE_CPU", "30"))
+# shared between the forked workers: once a few cases have timed out, the rest of the run is skipped (each further hang
+# would cost CASE_CPU_LIMIT seconds and the failing inputs are already in hand)
+_TIMEOUTS = multiprocessing.Value("i", 0)
+MAX_TIMEOUTS = 4
+
+
+def _on_case_timer(signum, frame):
+    raise CaseTimeout()
+
+
 def _impl_one(args):
     modname, case = args
     mod = importlib.import_module(modname)
     req = None
+    import signal
+    if _TIMEOUTS.value >= MAX_TIMEOUTS:
+        return "skipped-after-timeouts", [], None
+    # A case normally takes milliseconds.  An implementation that no longer returns on some input (an edit that loops
+    # for ever) must be reported with that input, not end the whole check with a harness timeout: bound the CPU time of
+    # one case (ITIMER_PROF counts CPU time of this process only, so a loaded machine does not trip it).
+    old = signal.signal(signal.SIGPROF, _on_case_timer)
+    signal.setitimer(signal.ITIMER_PROF, CASE_CPU_LIMIT)
+    try:
+        return _impl_one_inner(mod, case, req)
+    except CaseTimeout:
+        with _TIMEOUTS.get_lock():
+            _TIMEOUTS.value += 1
+        return "timeout", [f"implementation did not return within {CASE_CPU_LIMIT:g} s of CPU time on this input"], None
+    finally:
+        signal.setitimer(signal.ITIMER_PROF, 0)
+        signal.signal(signal.SIGPROF, old)
+
+
+def _impl_one_inner(mod, case, req):
     try:
         ans = mod.impl(case)
         if isinstance(ans, tuple):
@@ -46,6 +82,8 @@ def _impl_one(args):
             # (oracle rows computed with `re` on the texts of that moment)
             ans, req = ans
             case["req"] = req
+    except CaseTimeout:
+        raise
     except BaseException as e:  # the module maps expected exceptions itself
         tb = traceback.extract_tb(e.__traceback__)
         inner = tb[-1].filename if tb else ""
@@ -57,6 +95,8 @@ def _impl_one(args):
         ans = "harness-exc:" + type(e).__name__ + ":" + str(e)[:200] + traceback.format_exc()[-800:]
     try:
         fails = mod.oracle(case, ans)
+    except CaseTimeout:
+        raise
     except BaseException as e:
         fails = ["oracle-exc:" + type(e).__name__ + ":" + str(e)[:200] + traceback.format_exc()[-600:]]
     return ans, fails, req
@@ -205,6 +245,12 @@ class Check:
         )
         cases = self.gather_cases()
         results3 = self.run_impl(cases)
+        skipped = sum(1 for r in results3 if r[0] == "skipped-after-timeouts")
+        if skipped:
+            self.notes.append(f"{skipped} cases not run after {MAX_TIMEOUTS} cases hit the per-case CPU limit")
+            keep = [i for i, r in enumerate(results3) if r[0] != "skipped-after-timeouts"]
+            cases = [cases[i] for i in keep]
+            results3 = [results3[i] for i in keep]
         for c, r in zip(cases, results3):
             if r[2] is not None:
                 c["req"] = r[2]
@@ -366,6 +412,7 @@ class Check:
                 "exhaustive": bool(getattr(mod, "EXHAUSTIVE", {}).get(self.tier, False)),
                 "translator": info.get("translator", {}).get("summary", {}),
                 "source_fingerprint": getattr(self, "escalation", None),
+                "notes": list(self.notes),
                 "leanchecker": info.get("leanchecker"),
                 "status": status,
             },
